@@ -48,6 +48,8 @@ func c08Run(s *sim.Sim, p *sim.Params) {
 const c08secret = "c08-secret-token"
 
 const c08pure = `
+const DEFAULTS = {retries: 3, seen: 0, tags: ["base"]}
+
 : Item {
   name: str!
   qty: int!
@@ -151,6 +153,14 @@ const c08pure = `
   + ratelimit(100000/min)
   $ k = parseInt(n)
   > {route: "guarded", value: k + 1}
+}
+
+@ GET /pure/defaults/:n {
+  $ k = parseInt(n)
+  $ cfg = DEFAULTS
+  $ cfg.seen = k
+  $ cfg.retries = cfg.retries + 0
+  > {route: "defaults", seen: cfg.seen, retries: cfg.retries, base: DEFAULTS.retries}
 }
 
 @ POST /pure/ticket {
@@ -333,7 +343,10 @@ func c08desc(r simReq) string {
 
 func c08genPure(s *sim.Sim) simReq {
 	hdr := [][2]string{}
-	switch s.Choose(sim.SWork, 14) {
+	switch s.Choose(sim.SWork, 16) {
+	case 14, 15:
+		// a request starts from a module-level constant object and adjusts its own copy
+		return simReq{path: fmt.Sprintf("/pure/defaults/%d", 1+s.Choose(sim.SWork, 50))}
 	case 12, 13:
 		// defaults of omitted fields (object and list literals) are per request
 		if s.Choose(sim.SWork, 2) == 0 {
